@@ -235,7 +235,10 @@ func Quiet() {
 }
 
 // panicStack returns the frames below the panic call, truncated.
-func panicStack() string {
+func panicStack() string { return PanicStack() }
+
+// PanicStack returns the frames below the panic call, truncated.
+func PanicStack() string {
 	st := string(debug.Stack())
 	if i := strings.Index(st, "panic("); i >= 0 {
 		st = st[i:]
